@@ -1669,6 +1669,9 @@ fn e2e_case(run: &Run, case_seed: u64, second_solves: usize) {
     // the solver's own context (vrp-core RefinementContext) in front of each population kind: what it reports as ranking
     // after every offer must start with something no worse than the best solution offered so far, and be sorted
     facade_clause(run, &problem, &env, &first, &mut rng, &artefact_base);
+    for _ in 0..12 {
+        config_bounds_clause(run, &problem, &env, &first, &mut rng, &artefact_base);
+    }
 
     for k in 0..second_solves {
         let choice = match (k + rng.usize_below(4)) % 4 {
@@ -1869,6 +1872,98 @@ fn facade_clause(run: &Run, problem: &Arc<Problem>, env: &Arc<Environment>, firs
     }
 }
 
+/// The first `keep` tours of `s`; the jobs of the other tours are unassigned and their vehicles released.
+fn truncated_solution(s: &Solution, keep: usize) -> Solution {
+    use vrp_core::construction::heuristics::UnassignmentInfo;
+    let mut registry = s.registry.deep_copy();
+    let mut unassigned = s.unassigned.clone();
+    for route in s.routes.iter().skip(keep) {
+        registry.free_actor(&route.actor);
+        unassigned.extend(route.tour.jobs().cloned().map(|job| (job, UnassignmentInfo::Unknown)));
+    }
+    Solution { cost: s.cost, registry, routes: s.routes.iter().take(keep).map(|r| r.deep_copy()).collect(), unassigned, telemetry: None }
+}
+
+/// A population configured the way the CLI does it (JSON config -> `create_builder_from_config`) keeps the sizes the config
+/// names: never more ranked individuals than `maxSize` (greedy: one), never more selected parents than `selectionSize`;
+/// and, as everywhere, its first ranked individual is no worse than anything offered.
+fn config_bounds_clause(run: &Run, problem: &Arc<Problem>, env: &Arc<Environment>, first: &Solution, rng: &mut Rng, artefact_base: &dyn Fn(Value) -> Value) {
+    use rosomaxa::prelude::HeuristicContext;
+    let sizes = [1usize, 1, 2, 2, 3, 4, 6];
+    // rosomaxa: in its initial phase it hands out all initial individuals whatever the selection size is, and its elite size is
+    // checked by the model part; only the common clauses are judged for it here
+    let (kind, population, max_ranked, max_selected): (&str, Value, Option<usize>, Option<usize>) = match rng.below(4) {
+        0 => {
+            let s = *rng.pick(&sizes);
+            ("greedy", json!({"type": "greedy", "selectionSize": s}), Some(1), Some(s))
+        }
+        1 => {
+            let s = *rng.pick(&[2usize, 3, 4, 6, 8]);
+            ("rosomaxa", json!({"type": "rosomaxa", "selectionSize": s, "maxEliteSize": *rng.pick(&[1usize, 2, 3]), "maxNodeSize": *rng.pick(&[1usize, 2])}), None, None)
+        }
+        _ => {
+            let (m, s) = (*rng.pick(&sizes), *rng.pick(&sizes));
+            ("elitism", json!({"type": "elitism", "maxSize": m, "selectionSize": s}), Some(m), Some(s))
+        }
+    };
+    let config_doc = json!({"evolution": {"population": population}});
+    let outcome = run.guard(|| -> Result<Option<(String, Value)>, String> {
+        let config = vrp_cli::extensions::solve::config::read_config(BufReader::new(config_doc.to_string().as_bytes())).map_err(|e| e.to_string())?;
+        let evolution = vrp_cli::extensions::solve::config::create_builder_from_config(problem.clone(), vec![], &config)
+            .and_then(|builder| builder.build())
+            .map_err(|e| e.to_string())?;
+        let mut ctx = evolution.context;
+        // offers with pairwise different fitness: the solved tours cut down to their first k tours, from worst to best and back
+        let tours = first.routes.len();
+        let mut order: Vec<usize> = (0..=tours).collect();
+        order.extend((0..tours).rev());
+        let fit = |c: &InsertionContext| problem.goal.fitness(c).collect::<Vec<_>>();
+        let mut best: Option<InsertionContext> = None;
+        for (step, keep) in order.into_iter().enumerate() {
+            let offer = InsertionContext::new_from_solution(problem.clone(), (truncated_solution(first, keep), None), env.clone());
+            let copy = offer.deep_copy();
+            if best.as_ref().is_none_or(|b| problem.goal.total_order(&copy, b) == Ordering::Less) {
+                best = Some(copy);
+            }
+            let how = if step < 3 { "on_initial" } else { "on_generation" };
+            if step < 3 {
+                ctx.on_initial(offer, Timer::start());
+            } else {
+                ctx.on_generation(vec![offer], 0.1, Timer::start());
+            }
+            let ranked: Vec<&InsertionContext> = ctx.ranked().collect();
+            let selected = ctx.selected().count();
+            let best = best.as_ref().unwrap();
+            if let Some(limit) = max_ranked.filter(|limit| ranked.len() > *limit) {
+                return Ok(Some((format!("ranked-exceeds-configured-size|step={how}"), json!({"step": step, "ranked": ranked.len(), "configured": limit}))));
+            }
+            if let Some(limit) = max_selected.filter(|limit| selected > *limit) {
+                return Ok(Some((format!("selection-exceeds-configured-size|step={how}"), json!({"step": step, "selected": selected, "configured": limit}))));
+            }
+            if selected == 0 {
+                return Ok(Some((format!("nothing-selected-from-a-non-empty-population|step={how}"), json!({"step": step}))));
+            }
+            match ranked.first() {
+                Some(head) if problem.goal.total_order(head, best) == Ordering::Greater => {
+                    return Ok(Some((format!("first-ranked-worse-than-offered|step={how}"), json!({"step": step, "first_ranked": fit(head), "best_offered": fit(best)}))));
+                }
+                None => return Ok(Some(("ranked-empty-after-offer".to_string(), json!({"step": step})))),
+                _ => {}
+            }
+        }
+        Ok(None)
+    });
+    run.eval();
+    run.observe("config_bounds", &format!("{kind}|tours-offered={}", if first.routes.len() >= 3 { "4+" } else { "1-3" }));
+    let base = |extra: Value| artefact_base(json!({"cli_config": config_doc, "extra": extra}));
+    match outcome {
+        Ok(Ok(None)) => {}
+        Ok(Ok(Some((what, extra)))) => run.violation(&format!("C08|config-bounds|{kind}|{what}"), &format!("{kind} population built from the JSON config {config_doc}: {what}"), base(extra)),
+        Ok(Err(e)) => run.inconclusive(&format!("config bounds: config refused: {}", vverif::clip(&e, 60))),
+        Err(info) => run.violation(&format!("C08|config-bounds|{kind}|panic|{}", info.file()), &format!("population built from a JSON config panicked: {} at {}", info.message, info.location), base(info.to_json())),
+    }
+}
+
 fn copy_solution(s: &Solution) -> Solution {
     Solution {
         cost: s.cost,
@@ -1937,6 +2032,7 @@ fn replay(run: &Run, path: &std::path::Path) {
         for kind in ["greedy", "elitism", "rosomaxa"] {
         run.floor("seeded solves configured through the CLI config path with an evolution.initial section", run.observed("e2e_cli_config", "with evolution.initial"), 1);
     run.floor(&format!("solver context facade in front of a {kind} population"), run.observed("facade", kind), 3);
+    run.floor(&format!("{kind} population built from a JSON config and driven through the solver context"), run.observed_keys("config_bounds").iter().filter(|k| k.starts_with(kind)).map(|k| run.observed("config_bounds", k)).sum(), 8);
     }
     run.floor("replayed cases", 0, 1);
         return;
